@@ -119,6 +119,7 @@ def argNames : Core3.Arg → List Bytes
   | .retv (some (t, .const c)) => Core2.tyNames t ++ Core2.constNames c
   | .retv (some (t, _)) => Core2.tyNames t
   | .phis incs => incs.flatMap fun p => match p.1 with | .const c => Core2.constNames c | _ => []
+  | .tyvals ixs => ixs.flatMap fun p => Core2.tyNames p.1 ++ (match p.2 with | .const c => Core2.constNames c | _ => [])
   | _ => []
 
 /-- the named types a function definition mentions -/
